@@ -248,6 +248,11 @@ func (s *Session) bind(o *Config) {
 		return
 	}
 
+	if iq.XMLName.Local != "iq" {
+		// IQ decodes any element: a <message type='result'/> is not an answer to the bind request
+		s.err = errors.New("iq bind request was not answered with an iq but with <" + iq.XMLName.Local + ">")
+		return
+	}
 	if iq.Type != stanza.IQTypeResult {
 		s.err = errors.New("iq bind request was not answered with a result but with type '" + string(iq.Type) + "'")
 		return
@@ -298,6 +303,10 @@ func (s *Session) rfc3921Session() {
 
 		if s.err = s.transport.GetDecoder().Decode(&iq); s.err != nil {
 			s.err = errors.New("expecting iq result after session open: " + s.err.Error())
+			return
+		}
+		if iq.XMLName.Local != "iq" {
+			s.err = errors.New("session open request was not answered with an iq but with <" + iq.XMLName.Local + ">")
 			return
 		}
 		if iq.Type != stanza.IQTypeResult {
